@@ -14,7 +14,9 @@
 (*           option, result, 2- and 3-tuples (void allowed as array        *)
 (*           element, option/result argument and - rarely - tuple element);*)
 (*   values  random, scalars from the boundary pools of HostText.          *)
-(* The host function echoes its non-void arguments (or returns void).      *)
+(* The host function echoes its non-void arguments (or returns void); it   *)
+(* is called by name or (one case in three) through a variable holding it  *)
+(* as a first-class value.                                                 *)
 (* Expected (HostText!HostCase): the host's `{:?}` log of the decoded      *)
 (* arguments equals the rendering of the values passed, the Abra program   *)
 (* prints the rendering of the same values for what came back, and a local *)
@@ -87,7 +89,8 @@ Gen(id) ==
       atoms == Scalars \o <<st, en>>
       n == PickSeq(<<0, 1, 1, 1, 2, 2, 2, 3, 3>>)
       args == SeqGen(n, LAMBDA j : GenSlot(2, atoms, 1, 10))
-      sig == [name |-> "hf" \o id, camel |-> "Hf" \o id, args |-> args, retvoid |-> Chance(1, 7)]
+      sig == [name |-> "hf" \o id, camel |-> "Hf" \o id, args |-> args, retvoid |-> Chance(1, 7),
+              via |-> IF Chance(1, 3) THEN "value" ELSE "direct"]
       vs == GenVals(args)          \* LET-bound: drawn once
   IN HostCase("c" \o id, <<st, en>>, sig, vs)
 
